@@ -310,6 +310,10 @@ def rule_R1(toks, fired, tparam="T", target="F"):
         if i in dele:
             continue
         if t.kind == "ident" and t.text == tparam:
+            pv = prev_code(toks, i - 1)
+            if pv >= 0 and toks[pv].kind == "punct" and toks[pv].text == "::" and pv not in dele:
+                out.append(t)      # a path segment such as MatrixShape::T (enum variant), not the type parameter
+                continue
             t.text = target
             fired["R1"] = fired.get("R1", 0) + 1
         out.append(t)
